@@ -129,7 +129,8 @@ def _sync(ctx):
                        '(found %s)' % K.show_table(tab),
                        construct='fetch domain')
     ctx.require({'unlink', 'missing', 'existing'} <= set(seen),
-                'unlink / fetch / existing loops of _synchronize')
+                'unlink / fetch / existing loops of _synchronize',
+                    rule='C12.1')
     # every call reaches the loops
     for name in ('unlink', 'missing'):
         loop = seen[name]
@@ -183,7 +184,7 @@ def _owner(ctx):
                    'the .ready marker' if ok else
                    'a file is created in eventmgr without fs.write_safe: %s'
                    % N.txt(sub))
-    ctx.require(n >= 1, 'direct file creations in eventmgr')
+    ctx.require(n >= 1, 'direct file creations in eventmgr', rule='C12.2')
 
 
 def _write_safe(ctx):
@@ -347,7 +348,7 @@ def _invisible(ctx, em):
     calls = [s for s in K.walk_no_nested(cache.node)
              if isinstance(s, ast.Call) and
              K.callee_text(s) == 'fs.write_safe']
-    ctx.require(calls, 'fs.write_safe call in _cache')
+    ctx.require(calls, 'fs.write_safe call in _cache', rule='C12.4')
     for call in calls:
         pref = K.kwarg(call, 'prefix')
         if pref is not None:
@@ -394,7 +395,7 @@ def _invisible(ctx, em):
         graph = ctx.cfg(func)
         acts = [n for n, c in K.nodes_calling(
             graph, lambda c: K.is_meth(c, '_configure', '_terminate'))]
-        ctx.require(acts, 'action of %s' % fname)
+        ctx.require(acts, 'action of %s' % fname, rule='C12.4')
         for node in acts:
             def not_dot(edge):
                 for atom in nz.facts_of_edge(edge):
@@ -615,7 +616,8 @@ def _tolerated_faults(ctx, em):
                        N.txt(hdl.type) if hdl.type is not None else 'bare'),
                    construct='tolerated fault %s' % (
                        N.txt(hdl.type) if hdl.type is not None else 'bare'))
-    ctx.require(count >= 2, 'handlers around the ZooKeeper reads of _cache')
+    ctx.require(count >= 2, 'handlers around the ZooKeeper reads of _cache',
+        rule='C12.5')
 
 
 def _first_sync(ctx, em):
@@ -648,7 +650,8 @@ def _first_sync(ctx, em):
                 if ok:
                     flag = K.recv_text(arg.operand)
                     watch = name
-    ctx.require(flag is not None, 'watch callback calling _synchronize')
+    ctx.require(flag is not None, 'watch callback calling _synchronize',
+        rule='C12.1')
     # every notification synchronises: no path through the callback leaves
     # before _synchronize was called (an "empty placement, nothing to do"
     # shortcut would keep the leftovers of a drained node for ever)
@@ -683,7 +686,8 @@ def _first_sync(ctx, em):
                    'children watch was registered (its first, synchronous '
                    'callback still sees the event clear)',
                    construct='ready set after watch registration')
-    ctx.require(registered >= 1, 'registration of the children watch')
+    ctx.require(registered >= 1, 'registration of the children watch',
+        rule='C12.1')
 
 
 def _owner_package(ctx):
